@@ -23,21 +23,30 @@ Clauses(r) ==
 
 \* a text of tens of thousands of characters against a very short one (lengths and distances beyond 16 bits): the clauses
 \* that are linear in the long side (the distance is symmetric; the script is checked by its length only)
+\* both texts long with a long common beginning (more than 2^20 matrix cells): the distance is that of the two texts behind
+\* their longest common prefix (an optimal alignment keeps a common prefix matched), which is folded off first
+CommonPrefixLen(a, b) ==
+    LET m == IF Len(a) <= Len(b) THEN Len(a) ELSE Len(b)
+    IN FoldLeft(LAMBDA acc, k : IF acc[2] /\ a[k].i = b[k].i THEN <<acc[1] + 1, TRUE>> ELSE <<acc[1], FALSE>>, <<0, TRUE>>, [k \in 1..m |-> k])[1]
+LongDist(r) ==
+    IF Len(r.b) <= 64 THEN Dist(r.a, r.b, r.swap, r.sid)
+    ELSE LET cp == CommonPrefixLen(r.a, r.b)
+         IN Dist(SubSeq(r.a, cp + 1, Len(r.a)), SubSeq(r.b, cp + 1, Len(r.b)), r.swap, r.sid)
 LongClauses(r) ==
-    LET D == Dist(r.a, r.b, r.swap, r.sid)
+    LET D == LongDist(r)
     IN <<
        <<"distance", r.d = D>>,
        <<"distances", r.ds = <<D, D>> >>,
        \* to three decimals (TLC integers are 32-bit: the exact comparison multiplies by 10^6)
        <<"norm_value", r.nd.t = "num" /\ (LET q == (D * 1000) \div NormDen(r.a, r.b) IN (r.nd.v \div 1000) \in {q - 1, q, q + 1})>>,
-       <<"prefix", r.pd = PrefixDist(r.a, r.b, r.swap, r.sid)>>,
+       <<"prefix", Len(r.b) <= 64 => r.pd = PrefixDist(r.a, r.b, r.swap, r.sid)>>,
        <<"ops_len", Len(r.ops) = D>>
     >>
 
 Judge(r) ==
     IF r.st # "ok"
     THEN [why |-> <<r.st>>, drift |-> <<>>, skip |-> FALSE, nt |-> FALSE]
-    ELSE LET cl == IF Len(r.a) > 5000 THEN LongClauses(r) ELSE Clauses(r)
+    ELSE LET cl == IF Len(r.a) > 1000 THEN LongClauses(r) ELSE Clauses(r)
              bad == SelectSeq(cl, LAMBDA x : ~x[2])
          IN [why |-> [k \in 1..Len(bad) |-> bad[k][1]],
              drift |-> <<>>,
